@@ -714,6 +714,22 @@ def ref_active_build(ctx: Ctx) -> RuleResult:
     # a non-reference value becomes a constant holder
     mk = [n for n in iter_own_nodes(f.node) if isinstance(n, ast.Call) and dotted(n.func) == "make_default_value_uxn"]
     r.ob(len(mk) == 1, {"constant flag becomes a constant holder": len(mk) == 1})
+    # ... holding the object the user gave: its truthiness is read when the DAG RUNS (a switch object, a list filled later)
+    for c in mk:
+        if not c.args:
+            continue
+        held = c.args[-1]
+        src = held
+        if isinstance(held, ast.Name):
+            ds = [d for d in ctx.reaching_defs(f, held.id, c) if isinstance(d, (ast.Assign, ast.AnnAssign)) and d.value is not None]
+            src = ds[0].value if len(ds) == 1 else held
+        conv = isinstance(held, ast.Call) and dotted(held.func) in ("bool", "int", "str", "len", "not_") or isinstance(held, (ast.UnaryOp, ast.Compare, ast.BoolOp, ast.IfExp)) \
+            or (isinstance(src, ast.Call) and dotted(src.func) in ("bool", "int", "str", "len")) or isinstance(src, (ast.UnaryOp, ast.Compare, ast.BoolOp, ast.IfExp))
+        r.ob(not conv, {"value held for a constant flag": norm_src(held), "taken from": norm_src(src)})
+        if conv:
+            r.violate(f"{f.short}: a constant activation is evaluated when the DAG is described ({norm_src(held)})", f.loc(c),
+                      "twz_active=<object> is decided by the truthiness of the value at run time: a feature-switch object with __bool__, "
+                      "or a list that is filled or emptied after the description, keeps the describe-time outcome for ever", norm_src(c))
     return r
 
 
@@ -937,6 +953,21 @@ def ref_seed(ctx: Ctx) -> RuleResult:
         r.violate(f"{f.short} splice: exclusion of stub ids compares '{lt}' ids with '{rt}' ids", f.loc(good.node),
                   "the filter can never match, the defaults are copied under the stubs' ids and supplied arguments are ignored",
                   norm_src(good.node))
+    # ... and nothing else is left out: every other stored value of the nested DAG (defaults of omitted parameters, constant
+    # arguments, constants it returns, its setup results) is a value its nodes - or the outer DAG, through its outputs - read
+    comps = [c for c in ast.walk(bc) if isinstance(c, (ast.GeneratorExp, ast.ListComp, ast.DictComp, ast.SetComp))]
+    for cp in comps:
+        for gen in cp.generators:
+            conj: List[ast.AST] = []
+            for t_ in gen.ifs:
+                conj += t_.values if isinstance(t_, ast.BoolOp) and isinstance(t_.op, ast.And) else [t_]
+            others = [t_ for t_ in conj if not any(x is good.node for x in ast.walk(t_))]
+            r.ob(not others, {"bulk copy leaves out only the supplied inputs": not others, "other filters": [norm_src(t_) for t_ in others]})
+            if others:
+                r.violate(f"{f.short} splice: stored values of the nested DAG are left out of the copy ({norm_src(others[0])})", f.loc(others[0]),
+                          "a value the nested DAG holds that is not carried into the outer description reads as None there: a literal the "
+                          "nested DAG returns ((x, 'cm') -> (x, None)), or a setup result that is then computed a second time",
+                          norm_src(others[0]))
     # every explicit argument gets its stub and its registration: the loop that binds arguments to inputs has no way round them
     for lp in own_walk(sp.block):
         if isinstance(lp, ast.For) and isinstance(lp.iter, ast.Call) and dotted(lp.iter.func) == "zip" \
